@@ -313,6 +313,23 @@ def argument_forms(chk, rng):
                 if not same:
                     chk.violation("vertical_profiles returns different profiles for the same wind given as tuple, list or array / on a repeated call (closure %s)" % closure, sc, klass={"check": "argument_form"})
                     break
+    # whole numbers written as INTEGERS (meas_height=5, wind=(2, -3), mol=-40, z0=1 ...): the same profiles as with floats
+    for closure in ("MOST", "MOSTM", "CONSTANT"):
+        for ints, floats in (((5, (2, -3), dict(ustar=1, mol=-40)), (5.0, (2.0, -3.0), dict(ustar=1.0, mol=-40.0))),
+                             ((12, (3, 1), dict(z0=1, mol=60)), (12.0, (3.0, 1.0), dict(z0=1.0, mol=60.0))),
+                             ((4, (0, 2), dict(ustar=1, mol=-100, domain_height=20)), (4.0, (0.0, 2.0), dict(ustar=1.0, mol=-100.0, domain_height=20.0)))):
+            sc = {"kind": "integer_arguments", "closure": closure, "arguments": repr(ints)}
+            chk.case(json.dumps(sc, sort_keys=True))
+            n += 1
+            try:
+                oi = vertical_profiles(8, ints[0], ints[1], closure=closure, **ints[2])
+                of = vertical_profiles(8, floats[0], floats[1], closure=closure, **floats[2])
+            except Exception as ex:  # noqa: BLE001
+                chk.violation("vertical_profiles with whole numbers written as integers raised %r (closure %s, %r)" % (ex, closure, ints), sc, klass={"check": "integer_arguments"})
+                continue
+            if not (np.allclose(np.asarray(oi[0], dtype=float).ravel(), np.asarray(of[0], dtype=float).ravel(), rtol=1e-12, atol=0) and all(
+                    np.allclose(np.asarray(p, dtype=float).ravel(), np.asarray(q, dtype=float).ravel(), rtol=1e-12, atol=1e-14) for p, q in zip(oi[1], of[1]))):
+                chk.violation("vertical_profiles returns other profiles when whole-number arguments are written as integers (closure %s, %r)" % (closure, ints), sc, klass={"check": "integer_arguments"})
     return n
 
 
